@@ -38,23 +38,23 @@ Proof.
   set (c0 := fun _ : N => 0).
   assert (R0 : reach ex_f (fun _ => 0) 0%N 0%nat c0) by (constructor; intros x; unfold c0; pose proof W_val; lia).
   assert (R1 : reach ex_f (fun _ => 0) 0%N 1%nat c0).
-  { eapply r_step; [exact R0 | reflexivity |]. repeat split; intros; unfold c0; try reflexivity; try (pose proof W_val; lia).
+  { eapply r_step; [exact R0 | reflexivity |]. unfold step_conc, assert_passes; repeat split; intros; try (match goal with HA : String.eqb _ "assert" = true |- _ => cbn in HA; discriminate HA end); unfold c0; try reflexivity; try (pose proof W_val; lia).
     cbn in H. injection H as <-. reflexivity. }
   assert (R2 : reach ex_f (fun _ => 0) 0%N 2%nat c0).
-  { eapply r_step; [exact R1 | reflexivity |]. repeat split; intros; try reflexivity; try (cbn in H; contradiction); cbn in H; discriminate. }
+  { eapply r_step; [exact R1 | reflexivity |]. unfold step_conc, assert_passes; repeat split; intros; try (match goal with HA : String.eqb _ "assert" = true |- _ => cbn in HA; discriminate HA end); try reflexivity; try (cbn in H; contradiction); cbn in H; discriminate. }
   assert (R3 : reach ex_f (fun _ => 0) 1%N 0%nat c0).
   { eapply r_jump; [exact R2 | reflexivity | left; reflexivity |]. split.
     - intros; reflexivity.
     - intros ins o [<-|[]] Ho. cbn in Ho. injection Ho as <-. exists 0%N. split; [left; reflexivity | reflexivity]. }
   set (c1 := fun x : N => if N.eqb x 2 then 1 else 0).
   assert (R4 : reach ex_f (fun _ => 0) 1%N 1%nat c1).
-  { eapply r_step; [exact R3 | reflexivity |]. repeat split; intros.
+  { eapply r_step; [exact R3 | reflexivity |]. unfold step_conc, assert_passes; repeat split; intros; try (match goal with HA : String.eqb _ "assert" = true |- _ => cbn in HA; discriminate HA end).
     - unfold c1, c0. destruct (N.eqb x 2) eqn:E; [apply N.eqb_eq in E; subst; exfalso; apply H; left; reflexivity | reflexivity].
     - unfold c1. destruct (N.eqb x 2); pose proof W_val; lia.
     - unfold c1. destruct (N.eqb x 2); pose proof W_val; lia.
     - cbn in H0. injection H0 as <-. cbn in H. injection H as <-. reflexivity. }
   assert (R5 : reach ex_f (fun _ => 0) 1%N 2%nat c1).
-  { eapply r_step; [exact R4 | reflexivity |]. repeat split; intros; try reflexivity; try (cbn in H; contradiction); cbn in H; discriminate. }
+  { eapply r_step; [exact R4 | reflexivity |]. unfold step_conc, assert_passes; repeat split; intros; try (match goal with HA : String.eqb _ "assert" = true |- _ => cbn in HA; discriminate HA end); try reflexivity; try (cbn in H; contradiction); cbn in H; discriminate. }
   exists c1. split; [|reflexivity].
   eapply r_jump; [exact R5 | reflexivity | left; reflexivity |]. split.
   - intros; reflexivity.
